@@ -265,6 +265,8 @@ const preludeDecls = `(set-option :produce-models true)
 // preludeAxioms are quantified axioms of the model; each is included in a query only if one
 // of the function symbols in its patterns occurs in the query (relevance filter).
 var preludeAxioms = []string{
+	`(assert (forall ((s Str) (i Int) (j Int) (m Int)) (! (=> (and (<= 0 i) (<= i m) (< m j) (<= j (slen s))) (= (sat (ssub s i j) (- m i)) (sat s m))) :pattern ((ssub s i j) (sat s m)))))`,
+	`(assert (forall ((s Str) (a Int) (b Int) (c Int) (d Int)) (! (=> (and (<= 0 a) (<= a b) (<= b (slen s)) (<= 0 c) (<= c d) (<= d (- b a))) (= (ssub (ssub s a b) c d) (ssub s (+ a c) (+ a d)))) :pattern ((ssub (ssub s a b) c d)))))`,
 	// decomposition of a string into decode steps: ridx(s,k) is the byte index of the k-th step
 	`(assert (forall ((s Str)) (! (and (<= 0 (rcount s)) (<= (rcount s) (slen s)) (= (ridx s 0) 0) (= (ridx s (rcount s)) (slen s)) (=> (< 0 (slen s)) (< 0 (rcount s)))) :pattern ((rcount s)))))`,
 	`(assert (forall ((s Str) (k Int)) (! (=> (and (<= 0 k) (< k (rcount s))) (and (<= 0 (ridx s k)) (< (ridx s k) (slen s)) (= (ridx s (+ k 1)) (+ (ridx s k) (rwidth s (ridx s k)))))) :pattern ((ridx s k)))))`,
